@@ -1930,6 +1930,15 @@ static void get_user_data (interactive_t* ip, io_event_t* evt) {
         {
           size_t len = ip->text_end - ip->text_start;
 
+          if ((MAX_TEXT - len - 1) / 3 < MAX_TEXT / 16 && !(evt && evt->buffer) && cmd_in_buf (ip))
+            {
+              /* The buffer is full of commands typed ahead. Leave the new data in the socket until some of them
+               * have been processed (the poll is level-triggered and the backend does not wait while a command
+               * is pending) instead of discarding complete commands together with the buffer.
+               */
+              ip->iflags |= CMD_IN_BUF;
+              return;
+            }
           memmove (ip->text, ip->text + ip->text_start, len + 1);
           ip->text_start = 0;
           ip->text_end = len;
